@@ -86,6 +86,12 @@ MUTANTS = [
          old='    for (tensor_size_t column = 0; column < enable_scaling.size(); ++column)\n    {\n        const auto ifeature    = dataset.column2feature(column);\n        const auto feature     = dataset.feature(ifeature);\n        const auto isclass     = feature.is_sclass() || feature.is_mclass();\n        enable_scaling(column) = isclass ? 0x00 : 0x01;\n    }', new='    auto scalable       = false;\n    for (tensor_size_t column = 0, ifeature = -1; column < enable_scaling.size(); ++column)\n    {\n        if (const auto jfeature = dataset.column2feature(column); jfeature != ifeature)\n        {\n            ifeature = jfeature;\n            if (const auto feature = dataset.feature(ifeature); !feature.is_sclass() && !feature.is_mclass())\n            {\n                scalable = true;\n            }\n        }\n        enable_scaling(column) = scalable ? 0x01 : 0x00;\n    }'),
     dict(property="C16", name="reshape-zero-keeps-source-dimension", rule="R-C16-1", file="include/nano/tensor/tensor.h", tu="src/core/sampling.cpp",
          old='        auto dimensions = ::nano::make_dims(sizes...);\n        for (auto& dim : dimensions)\n        {\n            assert(dim == -1 || dim >= 0);', new='        auto dimensions = ::nano::make_dims(sizes...);\n        for (size_t idim = 0U; idim < std::min(dimensions.size(), trank); ++idim)\n        {\n            if (dimensions[idim] == 0)\n            {\n                dimensions[idim] = dims()[idim];\n            }\n        }\n        for (auto& dim : dimensions)\n        {\n            assert(dim == -1 || dim >= 0);'),
+    dict(property="C08", name="shuffled-full-list-shortcut", rule="R-C08-10", file="src/generator.cpp",
+         old='    auto shuffled = indices_t{samples.size()};\n    for (tensor_size_t i = 0; i < samples.size(); ++i)\n    {\n        assert(samples(i) >= 0 && samples(i) < shuffled_all_samples.size());\n        shuffled(i) = shuffled_all_samples(samples(i));\n    }\n\n    return shuffled;', new='    if (samples.size() == shuffled_all_samples.size())\n    {\n        return indices_t{shuffled_all_samples};\n    }\n\n    auto shuffled = indices_t{samples.size()};\n    for (tensor_size_t i = 0; i < samples.size(); ++i)\n    {\n        assert(samples(i) >= 0 && samples(i) < shuffled_all_samples.size());\n        shuffled(i) = shuffled_all_samples(samples(i));\n    }\n\n    return shuffled;'),
+    dict(property="C18", name="select-loop-one-chunk-per-worker-rounded", rule="R-C18-8", file="src/dataset/iterator.cpp",
+         old='    return std::max(tensor_size_t{1}, idiv(features.size(), concurrency));\n}\n', new='    return std::max(tensor_size_t{1}, idiv(features.size(), concurrency));\n}\n\nauto features_of_thread(const indices_cmap_t& features, const size_t concurrency, const tensor_size_t chunk)\n{\n    const auto chunksize = features_per_thread(features, concurrency);\n    const auto begin     = std::min(chunk * chunksize, features.size());\n    const auto end       = std::min(begin + chunksize, features.size());\n    return make_range(begin, end);\n}\n', more=[('    map(features.size(), features_per_thread(features, concurrency()),\n        [&](const tensor_size_t begin, const tensor_size_t end, const size_t tnum)\n        {\n            assert(tnum < m_buffers.size());\n            for (tensor_size_t index = begin; index < end; ++index)\n            {\n                const auto ifeature = features(index);\n                callback(ifeature, tnum, dataset().select(samples, ifeature, m_buffers[tnum].m_sclass));', '    map(static_cast<tensor_size_t>(concurrency()),\n        [&](const tensor_size_t chunk, const size_t tnum)\n        {\n            assert(tnum < m_buffers.size());\n            const auto range = features_of_thread(features, concurrency(), chunk);\n            for (tensor_size_t index = range.begin(); index < range.end(); ++index)\n            {\n                const auto ifeature = features(index);\n                callback(ifeature, tnum, dataset().select(samples, ifeature, m_buffers[tnum].m_sclass));')]),
+    dict(property="C18", name="select-loop-skips-last-of-chunk", rule="R-C18-8", file="src/dataset/iterator.cpp",
+         old='    map(features.size(), features_per_thread(features, concurrency()),\n        [&](const tensor_size_t begin, const tensor_size_t end, const size_t tnum)\n        {\n            assert(tnum < m_buffers.size());\n            for (tensor_size_t index = begin; index < end; ++index)\n            {\n                const auto ifeature = features(index);\n                callback(ifeature, tnum, dataset().select(samples, ifeature, m_buffers[tnum].m_sclass));', new='    map(features.size(), features_per_thread(features, concurrency()),\n        [&](const tensor_size_t begin, const tensor_size_t end, const size_t tnum)\n        {\n            assert(tnum < m_buffers.size());\n            for (tensor_size_t index = begin; index + 1 < end; ++index)\n            {\n                const auto ifeature = features(index);\n                callback(ifeature, tnum, dataset().select(samples, ifeature, m_buffers[tnum].m_sclass));'),
     dict(property="C17", name="stop-set-outside-lock", rule="R-C17-1", file="src/core/parallel.cpp",
          old="""    {
         const std::scoped_lock lock(m_queue.m_mutex);
@@ -1263,6 +1269,10 @@ BENIGN = [
          old='    auto sum_mean = 0.0;\n    for (tensor_size_t fold = 0, folds = this->folds(); fold < folds; ++fold)\n    {\n        const auto stats = this->stats(trial, fold, split, value);\n        sum_mean += stats.m_mean;\n    }\n\n    return sum_mean / static_cast<scalar_t>(folds());', new='    const auto nfolds = this->folds();\n    scalar_t   total  = 0;\n    for (tensor_size_t f = nfolds; f > 0; --f)\n    {\n        total = total + this->stats(trial, f - 1, split, value).m_mean;\n    }\n    const auto average = total / static_cast<scalar_t>(nfolds);\n    return average;'),
     dict(property="C14", name="flatten-mask-hoisted-lookup", file="src/dataset/stats.cpp",
          old='    for (tensor_size_t column = 0; column < enable_scaling.size(); ++column)\n    {\n        const auto ifeature    = dataset.column2feature(column);\n        const auto feature     = dataset.feature(ifeature);\n        const auto isclass     = feature.is_sclass() || feature.is_mclass();\n        enable_scaling(column) = isclass ? 0x00 : 0x01;\n    }', new='    auto scalable       = false;\n    for (tensor_size_t column = 0, ifeature = -1; column < enable_scaling.size(); ++column)\n    {\n        if (const auto jfeature = dataset.column2feature(column); jfeature != ifeature)\n        {\n            ifeature = jfeature;\n            const auto feature = dataset.feature(ifeature);\n            scalable           = !feature.is_sclass() && !feature.is_mclass();\n        }\n        enable_scaling(column) = scalable ? 0x01 : 0x00;\n    }'),
+    dict(property="C08", name="shuffled-backward-loop", file="src/generator.cpp",
+         old='    auto shuffled = indices_t{samples.size()};\n    for (tensor_size_t i = 0; i < samples.size(); ++i)\n    {\n        assert(samples(i) >= 0 && samples(i) < shuffled_all_samples.size());\n        shuffled(i) = shuffled_all_samples(samples(i));\n    }\n\n    return shuffled;', new='    const auto count  = samples.size();\n    auto       mapped = indices_t{count};\n    for (tensor_size_t k = count; k > 0; --k)\n    {\n        const auto sample = samples(k - 1);\n        mapped(k - 1)     = shuffled_all_samples(sample);\n    }\n    return mapped;'),
+    dict(property="C18", name="select-loop-one-chunk-per-worker-ceil", file="src/dataset/iterator.cpp",
+         old='    return std::max(tensor_size_t{1}, idiv(features.size(), concurrency));\n}\n', new='    return std::max(tensor_size_t{1}, idiv(features.size(), concurrency));\n}\n\nauto features_of_thread(const indices_cmap_t& features, const size_t concurrency, const tensor_size_t chunk)\n{\n    const auto chunksize = (features.size() + static_cast<tensor_size_t>(concurrency) - 1) / static_cast<tensor_size_t>(concurrency);\n    const auto begin     = std::min(chunk * chunksize, features.size());\n    const auto end       = std::min(begin + chunksize, features.size());\n    return make_range(begin, end);\n}\n', more=[('    map(features.size(), features_per_thread(features, concurrency()),\n        [&](const tensor_size_t begin, const tensor_size_t end, const size_t tnum)\n        {\n            assert(tnum < m_buffers.size());\n            for (tensor_size_t index = begin; index < end; ++index)\n            {\n                const auto ifeature = features(index);\n                callback(ifeature, tnum, dataset().select(samples, ifeature, m_buffers[tnum].m_sclass));', '    map(static_cast<tensor_size_t>(concurrency()),\n        [&](const tensor_size_t chunk, const size_t tnum)\n        {\n            assert(tnum < m_buffers.size());\n            const auto range = features_of_thread(features, concurrency(), chunk);\n            for (tensor_size_t index = range.begin(); index < range.end(); ++index)\n            {\n                const auto ifeature = features(index);\n                callback(ifeature, tnum, dataset().select(samples, ifeature, m_buffers[tnum].m_sclass));')]),
     dict(property="C07", name="get-descent-test-inlined", file="src/lsearchk.cpp",
          old="    if (!state.has_descent(descent))", new="    if (const auto dg0 = state.dg(descent); !(dg0 < 0.0))"),
     dict(property="C07", name="lemarechal-swap-operands", file="src/lsearchk/lemarechal.cpp",
